@@ -19,6 +19,20 @@ impl RequestFilter for Gate {
     }
 }
 
+/// `Tokens::validate` as an oracle with a pre-drawn verdict, for obligations that are about what
+/// happens *after* the token check (C04): which tokens validate is C15.O1 / C03.O1-O4.
+static mut TOKEN_VERDICT: crate::verif_env::Ghost<bool> = crate::verif_env::ghost(60, false);
+static mut TOKEN_CHECKS: crate::verif_env::Ghost<usize> = crate::verif_env::ghost(61, 0);
+fn validate_oracle(_t: &mut Tokens, _a: SocketAddrV4, _tok: &[u8]) -> bool {
+    unsafe {
+        TOKEN_CHECKS.v += 1;
+        TOKEN_VERDICT.v
+    }
+}
+fn token_fixed(_t: &mut Tokens, _a: SocketAddrV4) -> [u8; 4] {
+    [9, 9, 9, 9]
+}
+
 fn small_server(cap: usize, allow: bool) -> Server {
     // 40 random bytes for the two token secrets: symbolic
     let secrets: [u8; 40] = kani::any();
@@ -87,15 +101,16 @@ fn any_token() -> Box<[u8]> {
 //@ standins: tracing lru vcoll
 //@ also: C03
 //@ desc: one put_mutable against a store holding nothing or one item for the target (seq0): the stored seq never decreases; cas present and != seq0 => 301; seq < seq0 => 302; invalid signature or target != SHA1(k||salt) => 206; bad token => 203; every error leaves the stored item unchanged; otherwise the put's (seq, value) is stored and acknowledged; equal seq (the same item again) is accepted
-//@ bounds: full i64 seq0/seq/cas; cas absent or present; symbolic 1-byte values; symbolic verdict bits (signature valid, target matches) through the contract of from_dht_message (C02.O1); token = the valid token or an arbitrary 4-byte token; the request's signature bytes equal to the stored item's or different (replayed signature around another value); capacity 1; unwind 26, memcmp 66
+//@ bounds: full i64 seq0/seq/cas; cas absent or present; symbolic 1-byte values; symbolic verdict bits (signature valid, target matches) through the contract of from_dht_message (C02.O1); token verdict symbolic (Tokens::validate as an oracle: which tokens validate is C15.O1 / C03.O1-O4); the request's signature bytes equal to the stored item's or different (replayed signature around another value); capacity 1; unwind 26, memcmp 66
 //@ inv: mutable_values maps a target to some item (trivially inductive; pre-state by direct insertion)
-//@ stubs: MutableItem::from_dht_message -> contract (leaf C02.O1a-e); other arms' validators (from_dht_request, validate_immutable, RoutingTable::closest) -> flagged cuts; Instant::now -> symbolic clock; getrandom::fill -> preloaded symbolic bytes
+//@ stubs: MutableItem::from_dht_message -> contract (leaf C02.O1a-e); Tokens::validate -> oracle with pre-drawn verdict, call counted; other arms' validators (from_dht_request, validate_immutable, RoutingTable::closest) -> flagged cuts; Instant::now -> symbolic clock; getrandom::fill -> preloaded symbolic bytes
 //@ functions: Server::handle_request (put_mutable arm), Tokens::{should_update,validate}, LruCache get/put (stand-in)
 #[kani::proof]
 #[kani::stub(crate::common::mutable::MutableItem::from_dht_message, mh::from_dht_message_contract)]
 #[kani::stub(crate::common::signed_announce::SignedAnnounce::from_dht_request, sh::from_dht_cut)]
 #[kani::stub(crate::common::immutable::validate_immutable, vi_cut)]
 #[kani::stub(crate::common::routing_table::RoutingTable::closest, closest_cut)]
+#[kani::stub(crate::core::server::tokens::Tokens::validate, validate_oracle)]
 #[kani::stub(std::time::Instant::now, clock::now)]
 #[kani::stub(getrandom::fill, rnd::fill)]
 #[kani::unwind(26)]
@@ -104,10 +119,9 @@ fn c04_o1_put_mutable_rules() {
     let mut server = small_server(1, true);
     let rt = RoutingTable::new(Id::from(ME));
     let from = SocketAddrV4::new([10, 0, 0, 7].into(), 6881);
-    let good = server.tokens.generate_token(from);
-    let use_good: bool = kani::any();
-    let other: [u8; 4] = kani::any();
-    let token: [u8; 4] = if use_good { good } else { other };
+    let token_ok: bool = kani::any();
+    unsafe { TOKEN_VERDICT.v = token_ok };
+    let token: [u8; 4] = kani::any();
     let target = Id::from(T1);
     let has_prev: bool = kani::any();
     let seq0: i64 = kani::any();
@@ -138,7 +152,7 @@ fn c04_o1_put_mutable_rules() {
         }),
     };
     let reply = server.handle_request(&rt, &rt, from, req);
-    let token_ok = server.tokens.clone().validate(from, &token);
+    assert!(unsafe { TOKEN_CHECKS.v } == 1, "C03.O2 the token is checked on every put_mutable");
     let now = server.mutable_values.peek(&target);
     let code = code_of(&reply);
     // O1: never decreases
@@ -191,15 +205,16 @@ fn c04_o1_put_mutable_rules() {
 //@ cap: 2400
 //@ standins: tracing lru vcoll
 //@ also: C03 C11
-//@ desc: one get (seq filter absent or symbolic) against a mutable store holding nothing or one item: returns exactly the stored (v, k, seq, sig) / only the seq (NoMoreRecentValue) iff the filter is at or above the stored seq / NoValues iff nothing is stored; every reply carries a token that validates for the requester and asks the routing table for closest(target); the store is unchanged
+//@ desc: one get (seq filter absent or symbolic) against a mutable store holding nothing or one item: returns exactly the stored (v, k, seq, sig) / only the seq (NoMoreRecentValue) iff the filter is at or above the stored seq / NoValues iff nothing is stored; every reply carries the token Tokens::generate_token issued for the requester and asks the routing table for closest(target); the store is unchanged
 //@ bounds: full i64 seq0 and filter; symbolic 1-byte value; target stored or a different target; unwind 26
-//@ stubs: RoutingTable::closest -> probe recording the target (node lists are C11); validators of put arms -> flagged cuts; Instant::now; getrandom::fill
-//@ functions: Server::handle_request (get arm), Server::handle_get_mutable, Tokens::generate_token
+//@ stubs: RoutingTable::closest -> probe recording the target (node lists are C11); Tokens::generate_token -> fixed token (that a generated token validates is C15.O1b); validators of put arms -> flagged cuts; Instant::now; getrandom::fill
+//@ functions: Server::handle_request (get arm), Server::handle_get_mutable
 #[kani::proof]
 #[kani::stub(crate::common::mutable::MutableItem::from_dht_message, mh::from_dht_message_cut)]
 #[kani::stub(crate::common::signed_announce::SignedAnnounce::from_dht_request, sh::from_dht_cut)]
 #[kani::stub(crate::common::immutable::validate_immutable, vi_cut)]
 #[kani::stub(crate::common::routing_table::RoutingTable::closest, closest_probe)]
+#[kani::stub(crate::core::server::tokens::Tokens::generate_token, token_fixed)]
 #[kani::stub(std::time::Instant::now, clock::now)]
 #[kani::stub(getrandom::fill, rnd::fill)]
 #[kani::unwind(26)]
@@ -229,16 +244,16 @@ fn c04_o5_get_mutable() {
             assert!(hit, "C04.O5 value returned only if stored");
             assert!(filter.is_none() || filter.unwrap() < seq0, "C04.O5 full item only below the stored seq");
             assert!(a.seq == seq0 && &*a.v == &[val0] && ends(&a.k, 1) && ends(&a.sig, 2), "C04.O5 get returns exactly the stored item");
-            assert!(server.tokens.clone().validate(from, &a.token), "C15.O4 reply token validates for the requester");
+            assert!(&*a.token == &[9, 9, 9, 9], "C15.O4 reply carries the token generated for the requester");
         }
         Some(MessageType::Response(ResponseSpecific::NoMoreRecentValue(a))) => {
             assert!(hit && filter.is_some() && filter.unwrap() >= seq0, "C04.O5 NoMoreRecentValue iff filter at or above stored seq");
             assert!(a.seq == seq0, "C04.O5 NoMoreRecentValue carries the stored seq");
-            assert!(server.tokens.clone().validate(from, &a.token), "C15.O4 reply token validates for the requester");
+            assert!(&*a.token == &[9, 9, 9, 9], "C15.O4 reply carries the token generated for the requester");
         }
         Some(MessageType::Response(ResponseSpecific::NoValues(a))) => {
             assert!(!hit, "C04.O5 NoValues iff nothing stored for the target");
-            assert!(server.tokens.clone().validate(from, &a.token), "C15.O4 reply token validates for the requester");
+            assert!(&*a.token == &[9, 9, 9, 9], "C15.O4 reply carries the token generated for the requester");
         }
         _ => assert!(false, "C04.O5 get answered with a value, a seq or NoValues"),
     }
